@@ -29,7 +29,7 @@ ASSUMPTIONS = [
 ]
 COMPONENTS = {"real": ["pyxel.data_structure.Charge (pandas frame, numba binning)", "Geometry"], "stub": []}
 BUDGET = {"quick": {"n": 1600, "wall": 100, "determinism": 4}, "thorough": {"n": 600000, "wall": 1500, "determinism": 12}}
-REQUIRED_REACH = ["op:add_array", "op:add_clusters", "op:add_dataframe", "op:read", "op:remove", "op:reset", "pos:border", "pos:edge", "pos:negative", "pos:beyond", "array_after_clusters", "clusters_after_array"]
+REQUIRED_REACH = ["op:add_array", "op:add_clusters", "op:add_dataframe", "op:read", "op:remove", "op:reset", "pos:border", "pos:edge", "pos:negative", "pos:beyond", "array_after_clusters", "clusters_after_array", "op:resize", "resize_after_mixed_use", "duplicated"]
 
 POS = ("inside", "inside", "inside", "border", "edge", "negative", "beyond")
 
@@ -50,8 +50,17 @@ def generate(rng, tier):
     rows, cols = rng.randint(2, 5), rng.randint(2, 5)
     pv, ph = rng.choice([1.0, 5.0, 10.0, 18.0, 0.5, 2.5]), rng.choice([1.0, 5.0, 10.0, 18.0, 0.5, 2.5])
     ops = []
+    pv0, ph0 = pv, ph
     for _ in range(rng.randint(3, 12)):
         r = rng.random()
+        if ops and ops[-1]["op"] == "reset" and rng.random() < 0.5:
+            # the pixel size is changed through the geometry's setters while the detector holds no charge
+            pv, ph = rng.choice([1.0, 5.0, 10.0, 18.0, 0.5, 2.5]), rng.choice([1.0, 5.0, 10.0, 18.0, 0.5, 2.5])
+            ops.append({"op": "resize", "pv": pv, "ph": ph})
+            continue
+        if r < 0.04:
+            ops.append({"op": "duplicate", "continue_on": rng.choice(["original", "copy"])})
+            continue
         if r < 0.22:
             vals = [[rng.choice([0.0, 0.0, 1.0, 2.5, 7.0]) for _ in range(cols)] for _ in range(rows)]
             ops.append({"op": "add_array", "values": vals, "dtype": rng.choice(["float64", "float64", "float32"])})
@@ -74,11 +83,13 @@ def generate(rng, tier):
         else:
             ops.append({"op": "reset"})
     ops.append({"op": "read", "what": "array"})
-    return {"det_type": rng.choice(world.DET_TYPES), "rows": rows, "cols": cols, "pv": pv, "ph": ph, "ops": ops}
+    return {"det_type": rng.choice(world.DET_TYPES), "rows": rows, "cols": cols, "pv": pv0, "ph": ph0, "ops": ops}
 
 
 def shrink(scn):
     for i in range(len(scn["ops"]) - 1):
+        if scn["ops"][i]["op"] == "reset" and scn["ops"][i + 1]["op"] == "resize":
+            continue  # the pixel size only changes while the detector is empty
         c = copy.deepcopy(scn)
         del c["ops"][i]
         yield c
@@ -177,6 +188,8 @@ def execute(scn):
     seen_cls: set[str] = set()
     nontrivial = False
     had_array = had_clusters = False
+    had_mixed = False
+    frozen_list: list = []
 
     def bad(clause, sig, detail):
         viol.append({"clause": clause, "signature": sig, "detail": detail})
@@ -192,12 +205,14 @@ def execute(scn):
                 if had_clusters and m.clusters:
                     stats["array_after_clusters"] = 1
                     nontrivial = True
+                    had_mixed = True
                 had_array = True
             elif kind == "add_clusters":
                 ch.add_charge(**_arrays(op["clusters"]))
                 if had_array:
                     stats["clusters_after_array"] = 1
                     nontrivial = True
+                    had_mixed = True
                 m.add_clusters(op["clusters"])
                 had_clusters = True
                 for c in op["clusters"]:
@@ -222,6 +237,27 @@ def execute(scn):
             elif kind == "remove":
                 ch.remove_from_frame(op["ids"])
                 m.remove(op["ids"])
+            elif kind == "resize":
+                det.geometry.pixel_vert_size = op["pv"]
+                det.geometry.pixel_horz_size = op["ph"]
+                m.pv, m.ph = op["pv"], op["ph"]
+                pv, ph = op["pv"], op["ph"]
+                if had_mixed:
+                    stats["resize_after_mixed_use"] = 1
+                    nontrivial = True
+            elif kind == "duplicate":
+                twin = type(det).from_dict(det.to_dict())
+                frozen_exp = m.expected()
+                stats["duplicated"] = 1
+                if op["continue_on"] == "copy":
+                    det, frozen = twin, det
+                    ch = det.charge
+                else:
+                    frozen = twin
+                frozen_list.append((frozen, frozen_exp, k))
+                got0 = np.array(frozen.charge.array)
+                if got0.shape != frozen_exp.shape or not np.array_equal(got0, frozen_exp):
+                    bad("C14.accounting", "C14.accounting@duplicate", {"op": k})
             elif kind == "reset":
                 if k % 2:
                     det.charge.empty()
@@ -263,6 +299,15 @@ def execute(scn):
                     h.update(np.ascontiguousarray(got).tobytes())
         except Exception as exc:  # noqa: BLE001
             bad("C14.operation-raises", f"C14.operation-raises@{kind}:{type(exc).__name__}", {"op": k, "exc": repr(exc)[:300]})
+        for fz, fexp, k0 in frozen_list:
+            try:
+                gz = np.array(fz.charge.array)
+            except Exception as exc:  # noqa: BLE001
+                bad("C14.operation-raises", f"C14.operation-raises@read-of-duplicate:{type(exc).__name__}", {"op": k, "exc": repr(exc)[:200]})
+                break
+            if gz.shape != fexp.shape or not np.array_equal(gz, fexp):
+                bad("C14.accounting", f"C14.charge-of-the-other-detector-changed@after-{kind}", {"op": k, "duplicated_at": k0})
+                break
         h.update(repr((k, kind)).encode())
         if viol:
             break
